@@ -10,6 +10,7 @@
  R5 hand-off     : the operating point handed from one amplifier to the next and stored on it does not depend on whether a
                    value was optimised in this run or read back from an export (shares C09-R3/R4).
  R4 key agreement: every key an element's to_json emits under params / operational is a key its parameter class reads.
+ Rp presence      : optional numeric fields are tested with `is None` / membership, never by truthiness (0 is a value).
 """
 import ast
 
@@ -264,4 +265,9 @@ def r5_handoff(ctx):
     r4_voa(ctx)
 
 
-RULES = [('R5.handoff', r5_handoff), ('R1.bracket', r1_bracket), ('R2.completeness', r2_completeness), ('R3.fix-point', r3_fixpoints), ('R4.keys', r4_keys)]
+
+from ..presence import rule_for as _presence_rule
+
+RULES_PRESENCE = ('Rp.presence', _presence_rule('C17', 'a value of exactly 0 would be exported as missing and re-designed on reload'))
+
+RULES = [('R5.handoff', r5_handoff), ('R1.bracket', r1_bracket), ('R2.completeness', r2_completeness), ('R3.fix-point', r3_fixpoints), ('R4.keys', r4_keys), RULES_PRESENCE]
